@@ -27,20 +27,37 @@ label value), so half of the cases use a random injective relabelling.
 
 Families (case id = C03/<family>/<type>/<L0>,<L1>[-><O>]/<extents>/<cfg>):
   einsum, contraction            both lists without internal repeats (pure pairwise contraction / outer / inner patterns)
-  einsum-diag, contraction-diag  some index repeated within one list (diagonal of that operand)
-  explicit, explicit-diag        einsum<..,..,OIndex<..>>, every permutation class sampled (C++17)
-  inner, outer                   inner(a,b), outer(a,b)
+  <api>-diag                     some index repeated within one list (diagonal of that operand), none of the two classes below
+  <api>-diag-blast               the last index of the second list also occurs earlier in the second list and its extent is not a
+                                 multiple of the 128-bit vector width of the type (loop nest stays scalar)
+  <api>-diag-blastv              same, extent a multiple of the 128-bit width (the loop nest vectorises along that axis)
+  einsum-diag-disp, explicit-diag-disp   a list with an internal repeat whose head/tail matches the other list the way a
+                                 generalised matrix-vector / vector-matrix / matrix-matrix pattern does (dispatch_like())
+  explicit                       einsum<..,..,OIndex<..>>, permutations of the free indices sampled (C++17-only API)
+  inner, outer                   inner(a,b), outer(a,b), dyadic(a,b)
   single, single-contraction, single-explicit, inner1     one-operand forms (LIN)
   expr, map                      operands given as unevaluated expressions / TensorMap
-  CONTRACT_OPT=<n> variants carry the macro in the configuration tag.
+  CONTRACT_OPT=<n> variants carry the macro in the configuration tag (the macro is spelled CONTRACT_OPT, there is no
+  FASTOR_CONTRACT_OPT; documented values 1 and 2; internal values -1,-3 sampled in the thorough tier).
+Not generated because the unit is rejected by the compiler on the unchanged tree (set C03_INCLUDE_REJECTED=1 to generate them):
+  outer-ext1   outer(a,b) with an operand of type Tensor<T,1>: the Tensor<T,1> overloads return Tensor<T,Rest...> without the
+               extent-1 axis (result type differs from dims(a)...,dims(b)...), and outer(Tensor<T,1>,Tensor<T,1>) is ambiguous
+  outer-scalar outer(Tensor<T>,Tensor<T>) (two rank-0 tensors) is ambiguous for clang++ (g++ accepts it)
+  einsum-diag-rej, explicit-diag-rej   an internal repeat for which is_generalised_matrix_matrix indexes one of the index lists
+               out of bounds in a constant expression (e.g. einsum<Index<2>,Index<3,2,3>>): hard compile error
+  CONTRACT_OPT=-2   contraction.h:371 uses Index<>::NoIndices, which does not exist
 """
+import os
 from units.common import *
+
+INCLUDE_REJECTED = bool(os.environ.get('C03_INCLUDE_REJECTED'))
 
 LEVEL_NOTE = ('per instantiation (index pattern, extents, type, API form, ISA, std, CONTRACT_OPT): out[f] == Einstein sum over the repeated indices '
               'as polynomials (ATOMS mode; single-operand forms linear) + result type by static_assert (front-end fact) + every element '
               'written + frame + memory safety, for all element values; patterns and extents enumerated / sampled')
 
 SKIPPED = {'quick': 0, 'thorough': 0}
+BIG = 220
 
 # ------------------------------------------------------------------------------------------------------------------
 # index patterns
@@ -68,6 +85,36 @@ def analyse(L0, L1):
         if cat.count(l) == 2 and l not in contracted: contracted.append(l)
     return free, contracted
 
+def dispatch_like(L0, L1):
+    """pattern class (on the index lists only): one list matches the tail / the head of the other position by position
+    (shape of a generalised matrix-vector / vector-matrix product), or -- nc being the number of repeated indices -- the last
+    nc entries of the first list match the first nc entries of the second (generalised matrix-matrix product).
+    Returns True / False, or 'oob' when that last comparison would need a position outside one of the lists."""
+    r0, r1 = len(L0), len(L1); n = min(r0, r1)
+    mv = r0 != r1 and tuple(L0[r0 - n:]) == tuple(L1[r1 - n:])
+    vm = r0 != r1 and tuple(L0[:n]) == tuple(L1[:n])
+    uniq = len(set(list(L0) + list(L1)))
+    nc = r0 + r1 - uniq
+    inner_ = r0 == r1 and uniq == r1
+    if mv or vm: return True
+    if inner_ or nc == 0: return False
+    for k in range(nc):
+        i0 = r0 - nc + k
+        if i0 < 0 or k >= r1: return 'oob'
+        if L1[k] != L0[i0]: return False
+    return True
+
+def diag_class(L0, L1, ext, ty, api):
+    if not (has_within(L0) or has_within(L1)): return ''
+    if api in ('einsum', 'explicit'):
+        d = dispatch_like(L0, L1)
+        if d == 'oob': return '-diag-rej'
+        if d: return '-diag-disp'
+    if len(L1) and L1[-1] in L1[:-1]:
+        w128 = 128 // ty.bits
+        return '-diag-blastv' if ext[L1[-1]] % w128 == 0 else '-diag-blast'
+    return '-diag'
+
 def pool_for(isa, ty):
     V = vec_elems(isa, ty)
     if V <= 1: return [1, 2, 3, 4, 5]
@@ -76,7 +123,7 @@ def pool_for(isa, ty):
         if x not in p: p.append(x)
     return p
 
-def choose_extents(rng, L0, L1, isa, ty, loops, outmax):
+def choose_extents(rng, L0, L1, isa, ty, loops, outmax, force=None):
     """extent per label: distinct on distinct free indices, from {1,2,3,V,V+1} (extended by 4,5,6.. when more are needed)."""
     free, contracted = analyse(L0, L1)
     pool = pool_for(isa, ty)
@@ -94,6 +141,8 @@ def choose_extents(rng, L0, L1, isa, ty, loops, outmax):
         ext = {}
         for l, e in zip(free, rng.sample(fpool, len(free))): ext[l] = e
         for l in contracted: ext[l] = rng.choice(pool)
+        if force: ext.update(force)
+        if len({ext[l] for l in free}) != len(free): continue
         if ok(ext): return ext
     # smallest admissible instance
     ext = {}
@@ -101,6 +150,9 @@ def choose_extents(rng, L0, L1, isa, ty, loops, outmax):
     rng.shuffle(small)
     for l, e in zip(free, small): ext[l] = e
     for l in contracted: ext[l] = 2
+    if force:
+        ext.update(force)
+        if len({ext[l] for l in free}) != len(free): return None
     return ext if ok(ext) else None
 
 def relabel(rng, L0, L1, on):
@@ -163,14 +215,17 @@ def pair_case(ty, L0, L1, ext, lab, cfg, api='einsum', O=None, kinds=('own', 'ow
             env.update(zip(contracted, cidx))
             terms.append(E.inp(a, flat(s0, [env[l] for l in L0])) * E.inp(b, flat(s1, [env[l] for l in L1])))
         ens.append((c, flat(oshape, [env[l] for l in order]), E.total(terms, ty)))
-    diag = has_within(L0) or has_within(L1)
-    fam = api + ('-diag' if diag else '')
-    if kinds != ('own', 'own'): fam = {'expr': 'expr', 'map': 'map'}[[k for k in kinds if k != 'own'][0]] + ('-diag' if diag else '')
+    dcls = diag_class(L0, L1, ext, ty, api)
+    fam = api + dcls
+    if kinds != ('own', 'own'): fam = {'expr': 'expr', 'map': 'map'}[[k for k in kinds if k != 'own'][0]] + dcls
     pat = '%s,%s' % (pat_str(L0, lab), pat_str(L1, lab)) + ('->' + pat_str(order, lab) if api == 'explicit' else '')
     if kinds != ('own', 'own'): pat = api + ':' + pat
     cid = 'C03/%s/%s/%s/%s,%s/%s' % (fam, ty.name, pat, ext_str(L0, ext), ext_str(L1, ext), cfg.tag())
     loops = prod(ext[l] for l in set(list(L0) + list(L1)))
-    return Case(cid, 'C03', body, [a, b, c], ens, 'ATOMS', cfg, unwind=4 * max(loops, na, nb, no) + 64)
+    # big loop nests (thorough tier): the DFCC-instrumented program does not fit the 45 s budget; ask for the assertion form of the
+    # same clauses directly instead of timing out first (reported as enforced_by=assertion)
+    kw = {'form': 'harness'} if loops > BIG else {}
+    return Case(cid, 'C03', body, [a, b, c], ens, 'ATOMS', cfg, unwind=4 * max(loops, na, nb, no) + 64, **kw)
 
 def single_case(ty, L0, ext, lab, cfg, api='einsum', O=None, kind='own'):
     free, contracted = analyse(L0, ())
@@ -219,13 +274,13 @@ def inner1_case(ty, N, rank, cfg):
     return Case('C03/inner1/%s/%s/%s' % (ty.name, 'x'.join(map(str, shape)) if shape else 's', cfg.tag()), 'C03', body, [a, c], [(c, 0, E.total(terms, ty))], 'ATOMS', cfg,
                 unwind=4 * n + 64)
 
-def outer_case(ty, s0, s1, cfg, kinds=('own', 'own'), api='outer'):
+def outer_case(ty, s0, s1, cfg, kinds=('own', 'own'), api='outer', fam=None):
     na = prod(s0); nb = prod(s1)
     a = Buf('a', ty, na, 'in', atoms='A'); b = Buf('b', ty, nb, 'in', atoms='B'); c = Buf('c', ty, na * nb, 'out')
     da, xa = operand(ty, s0, 'a', kinds[0]); db, xb = operand(ty, s1, 'b', kinds[1])
     body = '    %s %s\n%s' % (da, db, result_text(ty, list(s0) + list(s1), '%s(%s,%s)' % (api, xa, xb), na * nb))
     ens = [(c, p * nb + q, E.inp(a, p) * E.inp(b, q)) for p in range(na) for q in range(nb)]
-    fam = api if kinds == ('own', 'own') else api + '-' + '-'.join(kinds)
+    fam = fam or (api if kinds == ('own', 'own') else api + '-' + '-'.join(kinds))
     sh = lambda s: 'x'.join(map(str, s)) if len(s) else 's'
     return Case('C03/%s/%s/%s,%s/%s' % (fam, ty.name, sh(s0), sh(s1), cfg.tag()), 'C03', body, [a, b, c], ens, 'ATOMS', cfg, unwind=4 * na * nb + 64)
 
@@ -241,7 +296,7 @@ def cases(tier, seed):
     types = [INT, FLT, DBL]
     ISAS = isas(tier)
     R = 4 if thorough else 3
-    LOOPS, OUT = (1500, 720) if thorough else (320, 130)
+    LOOPS, OUT = (1200, 720) if thorough else (160, 100)
     skipped = 0
     combos = [(ty, isa) for isa in ISAS for ty in types]
     rot = [0]
@@ -259,12 +314,13 @@ def cases(tier, seed):
     between = [p for p in pats if not has_within(p[0]) and not has_within(p[1])]
     diag = [p for p in pats if has_within(p[0]) or has_within(p[1])]
 
-    def add_pair(L0, L1, api, ty, isa, std, macros=(), O='auto', kinds=('own', 'own'), relab=None):
+    def add_pair(L0, L1, api, ty, isa, std, macros=(), O='auto', kinds=('own', 'own'), relab=None, force=None):
         nonlocal skipped
-        ext = choose_extents(rng, L0, L1, isa, ty, LOOPS, OUT)
+        ext = choose_extents(rng, L0, L1, isa, ty, LOOPS, OUT, force)
         if ext is None: skipped += 1; return
         lab = relabel(rng, L0, L1, rng.random() < 0.5 if relab is None else relab)
         free, _ = analyse(L0, L1)
+        if diag_class(L0, L1, ext, ty, api) == '-diag-rej' and not INCLUDE_REJECTED: return
         if api == 'explicit':
             if O == 'auto': O = rng.choice(list(itertools.permutations(free)))
             out.append(pair_case(ty, L0, L1, ext, lab, Cfg(isa, 'c++17', macros=macros), 'explicit', O, kinds))
@@ -272,28 +328,40 @@ def cases(tier, seed):
             out.append(pair_case(ty, L0, L1, ext, lab, Cfg(isa, std, macros=macros), api, None, kinds))
 
     # --- einsum / contraction on every pattern -------------------------------------------------------------------
-    reps_e = 3 if thorough else 2
+    reps_e = 2
     for (L0, L1) in between:
         for _ in range(reps_e):
             ty, isa = next_combo(); add_pair(L0, L1, 'einsum', ty, isa, std_for())
+    for (L0, L1) in (between if thorough else sample(rng, between, 50)):
         ty, isa = next_combo(); add_pair(L0, L1, 'contraction', ty, isa, std_for())
-    dsel = diag if thorough else sample(rng, diag, 60)
+    # an index repeated within one list (diagonal of that operand); the sub-family is decided by diag_class()
+    dsel = sample(rng, diag, 450 if thorough else 36)
     for (L0, L1) in dsel:
         ty, isa = next_combo(); add_pair(L0, L1, 'einsum', ty, isa, std_for())
         ty, isa = next_combo(); add_pair(L0, L1, 'contraction', ty, isa, std_for())
+    # last index of the second list repeated within it, extent a multiple of the 128-bit width (vectorising loop nest)
+    blast = [p for p in diag if p[1][-1] in p[1][:-1]]
+    for (L0, L1) in sample(rng, blast, 60 if thorough else 8):
+        ty, isa = next_combo()
+        w = 128 // ty.bits
+        add_pair(L0, L1, rng.choice(['einsum', 'contraction']), ty, isa, std_for(), force={L1[-1]: rng.choice([w, 2 * w])})
+    # internal repeat + head/tail match of the two lists (shape of a generalised matrix-vector / vector-matrix / matrix-matrix product)
+    disp = [p for p in diag if dispatch_like(*p)]
+    for (L0, L1) in sample(rng, disp, 80 if thorough else 6):
+        ty, isa = next_combo(); add_pair(L0, L1, 'einsum', ty, isa, std_for())
     # --- explicit output order (C++17) ---------------------------------------------------------------------------
     esel = [p for p in between if len(analyse(*p)[0]) >= 1]
-    esel = esel if thorough else sample(rng, esel, 45)
+    esel = sample(rng, esel, 300 if thorough else 32)
     for (L0, L1) in esel:
         free, _ = analyse(L0, L1)
-        for O in perms_sample(rng, free, 3 if thorough else 1) + ([tuple(free)] if rng.random() < 0.2 else []):
+        for O in perms_sample(rng, free, 2 if thorough else 1) + ([tuple(free)] if rng.random() < 0.2 else []):
             ty, isa = next_combo(); add_pair(L0, L1, 'explicit', ty, isa, 'c++17', O=O)
-    for (L0, L1) in sample(rng, [p for p in diag if len(analyse(*p)[0]) >= 1], 60 if thorough else 10):
+    for (L0, L1) in sample(rng, [p for p in diag if len(analyse(*p)[0]) >= 1], 60 if thorough else 8):
         ty, isa = next_combo(); add_pair(L0, L1, 'explicit', ty, isa, 'c++17')
     # --- CONTRACT_OPT variants of the loop nest --------------------------------------------------------------------
     # documented values (comments in contraction.h): 1 and 2; the negative values select internal variants: -1 and -3 are
     # sampled in the thorough tier only, -2 does not compile on the unchanged tree (Index<>::NoIndices) and is left out
-    for opt in ((1, 2, -1, -3) if thorough else (1, 2)):
+    for opt in ((1, 2, -1, -3) if thorough else (1, 2)) + ((-2,) if INCLUDE_REJECTED else ()):
         sel = sample(rng, between, 40 if thorough else 12)
         for (L0, L1) in sel:
             free, _ = analyse(L0, L1)
@@ -309,12 +377,16 @@ def cases(tier, seed):
         for ty in types:
             V = vec_elems(isa, ty)
             shapes = [(), (1,), (V,), (V + 1,), (2 * V + 3,), (2, 3), (3, V + 1), (2, 3, V), (2, 2, 3, 2)]
-            for shp in (shapes if thorough else [()] + sample(rng, shapes[1:], 3)):
+            for shp in (shapes if thorough else sample(rng, shapes, 3)):
                 out.append(inner_case(ty, list(shp), Cfg(isa, std_for())))
-            opairs = [((), ()), ((3,), ()), ((), (3,)), ((1,), (V,)), ((V + 1,), (1,)), ((1,), (1,)), ((2,), (V,)), ((V,), (3,)), ((V + 1,), (2 * V + 1,)), ((2, 3), (V,)), ((3,), (2, V + 1)),
-                      ((2, 3), (V, 5)), ((2, 3, 1), (V + 1,)), ((2,), (3, 1, V))]
-            for (s0, s1) in (opairs if thorough else sample(rng, opairs, 4)):
+            opairs = [((3,), ()), ((), (3,)), ((2,), (V,)), ((V,), (3,)), ((V + 1,), (2 * V + 1,)), ((2, 3), (V,)), ((3,), (2, V + 1)),
+                      ((2, 3), (V, 5)), ((2, 3, 1), (V + 1,)), ((2,), (3, 1, V)), ((1, 2), (V + 1,)), ((3,), (1, 1))]
+            for (s0, s1) in (opairs if thorough else sample(rng, opairs, 3)):
                 out.append(outer_case(ty, list(s0), list(s1), Cfg(isa, std_for())))
+            if INCLUDE_REJECTED:     # an operand of type Tensor<T,1>: see the module docstring
+                for (s0, s1) in [((1,), (V,)), ((V + 1,), (1,)), ((1,), (1,)), ((2, 3), (1,))]:
+                    out.append(outer_case(ty, list(s0), list(s1), Cfg(isa, 'c++14'), api='outer', fam='outer-ext1'))
+                out.append(outer_case(ty, [], [], Cfg(isa, 'c++14'), api='outer', fam='outer-scalar'))
             if thorough or isa == 'avx2':
                 out.append(inner_case(ty, [3, V + 1], Cfg(isa, 'c++14'), kinds=('expr', 'own')))
                 out.append(inner_case(ty, [2 * V + 1], Cfg(isa, 'c++14'), kinds=('own', 'map')))
